@@ -7,14 +7,14 @@ from .rustsrc import File
 VERIF = os.path.dirname(os.path.dirname(os.path.abspath(__file__)))
 PINS = {
  'operator.rs': {
-   'InfixOpManager::new': ['C08'], 'InfixOpManager::register': ['C08'], 'InfixOpManager::get': ['C02', 'C03', 'C08'], 'InfixOpManager::exist': ['C02', 'C05', 'C08', 'C10'],
-   'PrefixOpManager::new': ['C08'], 'PrefixOpManager::register': ['C08'], 'PrefixOpManager::get': ['C03', 'C08'], 'PrefixOpManager::exist': ['C02', 'C05', 'C08', 'C10'],
-   'PostfixOpManager::new': ['C08'], 'PostfixOpManager::register': ['C08'], 'PostfixOpManager::get': ['C03', 'C08'], 'PostfixOpManager::exist': ['C02', 'C05', 'C08', 'C10'],
+   'InfixOpManager::new': ['C08'], 'InfixOpManager::register': ['C08'],
+   'PrefixOpManager::new': ['C08'], 'PrefixOpManager::register': ['C08'],
+   'PostfixOpManager::new': ['C08'], 'PostfixOpManager::register': ['C08'],
  },
- 'function.rs': {'InnerFunctionManager::new': ['C08'], 'InnerFunctionManager::register': ['C08'], 'InnerFunctionManager::get': ['C03', 'C08']},
- 'context.rs': {'macro:create_context': ['C06', 'C08'], 'Context::new': ['C06'], 'Context::set': ['C06', 'C08'], 'Context::get': ['C06', 'C08'], 'Context::value': ['C06', 'C07', 'C08']},
+ 'function.rs': {'InnerFunctionManager::new': ['C08'], 'InnerFunctionManager::register': ['C08']},
+ 'context.rs': {'macro:create_context': ['C06', 'C08'], 'Context::new': ['C06'], 'Context::set': ['C06', 'C08']},
  'init.rs': {'init': ['C08']},
- 'descriptor.rs': {'DescriptorManager::new': ['C18'], 'DescriptorManager::set': ['C18'], 'DescriptorManager::get': ['C18']},
+ 'descriptor.rs': {'DescriptorManager::new': ['C18'], 'DescriptorManager::set': ['C18']},
 }
 def fingerprint(f, key):
     if key.startswith('macro:'):
